@@ -23,6 +23,18 @@ Theorem C02_message_every_capacity : forall a tags args,
     else Ok (zlen enc, Some (enc ++ skipn (length enc) buf)).
 Proof. exact amessage_spec. Qed.
 
+(* the fixed-capacity callers: RtData::reply / broadcast build into a
+   8192-byte stack buffer, ThreadLink::write / writeArray into MaxMsg bytes:
+   an encoding that does not fit is replaced by an all-zero buffer (the empty
+   message) and 0 is returned, nothing is written outside *)
+Theorem C02_fixed_capacity : forall cap a tags args buf,
+  args_wf tags args -> zlen buf = cap ->
+  let enc := enc_spec a tags args in
+  amessage (Some buf) a tags args =
+  if cap <? zlen enc then Ok (0, Some (zeros cap))
+  else Ok (zlen enc, Some (enc ++ skipn (length enc) buf)).
+Proof. exact amessage_fixed_capacity. Qed.
+
 (* the write pass applied to a zeroed region of exactly its own span leaves
    what follows untouched (the frame lemma behind "never writes outside") *)
 Theorem C02_chunks_frame : forall cs tail,
